@@ -248,7 +248,11 @@ class DefaultOpenFlowHandlers (OpenFlowHandlers):
     con.ports._reset()
     con.dpid = msg.datapath_id # Check this
 
-    con.ofnexus._connect(con) #FIXME: Should this be here?
+    # (Re)register, but don't take the datapath's slot back from a newer
+    # connection: the switch may have reconnected while this (stale)
+    # connection is still open.
+    if con.ofnexus.getConnection(con.dpid) in (con, None):
+      con.ofnexus._connect(con)
     e = con.ofnexus.raiseEventNoErrors(FeaturesReceived, con, msg)
     if e is None or e.halt != True:
       con.raiseEventNoErrors(FeaturesReceived, con, msg)
